@@ -14,7 +14,8 @@ from ..runner import sut, expect, Fail, SutError, Collector, hypothesis_run, eva
 from .c02 import run_steps, AROMATIC_REJECT
 
 ID = 'C12'
-RULE = ('cases: C01 strings, multi-level strings and ambiguous fragment sets (incl. shared atoms). Per case: node '
+RULE = ('[history machine rules: new_library, resolve (3 constructors), start_live/step_live, sample, extend (read_fragments into a held library), scribble (caller edits freshly read copies in place); clause: atom names count 0,1,2.. in key order within a coarse node; one library dict for all levels] '
+        'cases: C01 strings, multi-level strings and ambiguous fragment sets (incl. shared atoms). Per case: node '
         'keys are exactly 0..n-1, the fragid sequence is non-decreasing, without shared atoms each coarse node\'s '
         'atoms (H included) form one contiguous block in base-graph order, atom names are element+index and unique '
         'within each coarse node; equal canonical dumps (coarse and fine graph with all attributes, nested fragment '
